@@ -4,6 +4,8 @@ import json, os
 ROOT = os.path.dirname(os.path.dirname(os.path.abspath(__file__)))
 TECH = "bounded symbolic execution of go/ssa + SMT (z3; cvc5 cross-check in thorough), native replay of counterexamples"
 claimed = {
+ "C02": dict(level="Differential bounded symbolic model checking: the real datagram/stream decoders (and the pooled-message path incl. recycled capacities) run on every byte string up to the stated lengths together with an RFC reference parser written in the harness; the solver refutes any disagreement in accept/reject or in any decoded field, any panic, any non-termination within the step bound, any failure to re-encode/re-decode, and aliasing of the receive buffer.",
+             note="Trusted: gosym encoder (native path witnesses on every run), z3/cvc5, the harness reference parser. Lengths beyond the bound are outside.", ref="DESIGN.md §4 C02"),
  "C01": dict(level="Bounded symbolic model checking of the real udp/tcp coders: header lemmas on their full domain (every delta/length/extension class, every uint32, every stream length class), whole-message encode->decode round trip, Size/Encode agreement and short-buffer behaviour with symbolic option numbers, values, token, payload, code, type, MID; refusal of out-of-domain token/type/MID. Bounds on option count and byte lengths are stated in evidence.",
              note="Trusted: gosym encoder (validated on every run by native path witnesses), z3/cvc5, the harness copy of the option registry. Known finding C01-type-4-255 (types 4..255 accepted; pinned by an existing test) is reported as KNOWN-FINDING.", ref="DESIGN.md §4 C01"),
  "C20": dict(level="IsNoResponseCode over all 2^16 codes x all 2^32 option values and the ResponseWriter.SetResponse gate over every 0..4-byte option value and all codes 0..255, against the RFC 7967 class/bit table; solver refutes any deviation.",
